@@ -8,11 +8,11 @@ _MATTUS = ['src/Matrix/AMatrixDense.cpp', 'src/Matrix/AMatrix.cpp', 'src/Matrix/
 for _nm, _shapes in (('square', ((1, 1), (2, 2), (3, 3))), ('wide', ((1, 2), (1, 3), (2, 3))), ('tall', ((2, 1), (3, 1), (3, 2)))):
     _ents = []
     for (_r, _c) in _shapes:
-        _ents += ['k_%s_%dx%d' % (_o, _r, _c) for _o in ('mulrow', 'mulcol', 'divrow', 'divcol')]
+        _ents += ['k_%s_%dx%d' % (_o, _r, _c) for _o in ('mulrow', 'mulcol', 'divrow', 'divcol', 'gmulrow', 'gmulcol', 'gdivrow', 'gdivcol')]
     K('C11.a.' + _nm, property='C11', engine='symex', harness='C11/rowcol.cpp', entries=_ents, tus=_MATTUS,
       defines={'all': {'VF_SHAPES(X)': ' '.join('X(%d,%d)' % s for s in _shapes)}},
       bounds={'quick': 'MatrixRectangular of shapes %s; entries and vec integer-valued |v|<=1000 (divisors non-zero)' % (', '.join('%dx%d' % s for s in _shapes))},
-      timeout_ms={'quick': 60000, 'thorough': 600000}, validate={'quick': 10, 'thorough': 30}, validate_doubles='int',
+      timeout_ms={'quick': 60000, 'thorough': 600000}, validate={'quick': 10, 'thorough': 30}, validate_doubles='int', symex={'assume_no_ub': True},
       what='AMatrixDense::multiplyRow/multiplyColumn/divideRow/divideColumn on a really constructed MatrixRectangular (Eigen storage): '
            'R(i,j)=vec[i]*M(i,j) resp. vec[j]*M(i,j) (division likewise), shape unchanged, vec (exact documented length) not read out of bounds',
       out='shapes above 3x3; rounding of 1/v and of the products (real-arithmetic reading)',
